@@ -2506,7 +2506,7 @@ def FullSpec (o : Oracles) (p : Node) (toks : List TT) : Prop :=
 
 /-- the token kinds with which a predicate starts -/
 def isPredStart (t : Tok) : Bool :=
-  isOpdStart t || t == .lparen || t == .not || t == .exists || t == .minus || t == .plus
+  isOpdStart t || t == .lparen || t == .not || t == .exists || t == .minus || t == .plus || t == .last
 
 def PHead (toks : List TT) : Prop := ∃ tk ts, toks = tk :: ts ∧ isPredStart tk.1 = true
 
@@ -3439,7 +3439,7 @@ theorem opdStart_mode {t : Tok} (h : isOpdStart t = true) : t ≠ .strict ∧ t 
 
 theorem predStart_mode {t : Tok} (h : isPredStart t = true) : t ≠ .strict ∧ t ≠ .lax := by
   simp only [isPredStart, Bool.or_eq_true, beq_iff_eq] at h
-  rcases h with ((((h | h) | h) | h) | h) | h
+  rcases h with (((((h | h) | h) | h) | h) | h) | h
   · exact opdStart_mode h
   all_goals (subst h; decide)
 
@@ -5405,6 +5405,1121 @@ theorem RT2_RT3 (o : Oracles) (a : AST) (h : RT2 a = true) : RT3 o a = true := b
   · rename_i nx
     simp [okOpd3, isOpdConst, (sub23 o _).next nx (Nat.le_refl _) hr]
   · simp at hr
+
+/-! ## Stage 5: `.time()` family and `.decimal()` -/
+
+def isTimeOp (op : UnOp) : Bool := op == .time || op == .timeTZ || op == .timestamp || op == .timestampTZ
+
+def timeName : UnOp → List Char
+  | .time => ['t', 'i', 'm', 'e']
+  | .timeTZ => ['t', 'i', 'm', 'e', '_', 't', 'z']
+  | .timestamp => ['t', 'i', 'm', 'e', 's', 't', 'a', 'm', 'p']
+  | _ => ['t', 'i', 'm', 'e', 's', 't', 'a', 'm', 'p', '_', 't', 'z']
+
+def timeKind : UnOp → Tok
+  | .time => .time
+  | .timeTZ => .timeTz
+  | .timestamp => .timestamp
+  | _ => .timestampTz
+
+def tTime (op : UnOp) : TT := (timeKind op, timeName op)
+
+theorem time_facts {op : UnOp} (h : isTimeOp op = true) :
+    precisionOp (timeKind op) = some op ∧ timeKind op ≠ .star ∧ timeKind op ≠ .any ∧
+      isPlainKeyName (timeKind op) = false ∧ methodOf (timeKind op) = none ∧ timeKind op ≠ .decimal ∧
+      timeKind op ≠ .date ∧ timeKind op ≠ .datetime ∧ timeKind op ≠ .stop ∧
+      Print.unStr op = '.' :: timeName op ∧
+      ∃ c w, timeName op = c :: w ∧ (c :: w, timeKind op) ∈ kwList := by
+  cases op <;> simp [isTimeOp] at h <;>
+    exact ⟨rfl, by decide, by decide, by decide, by decide, by decide, by decide, by decide, by decide, by decide,
+      _, _, rfl, by decide⟩
+
+section
+variable {o : Oracles}
+
+/-- `.time()` and friends, without precision -/
+theorem accOp_time0 (f : Nat) (op : UnOp) (hop : isTimeOp op = true) (rest : List TT) :
+    RunsV (StP o (tDot :: tTime op :: tLp :: tRp :: rest)) (accessorOp o (f + 1) .dot) (.unary op none none)
+      (StE o rest) := by
+  have hf := time_facts hop
+  rw [accessorOp]
+  rstep (consume_spec _ _)
+  simp only [reduceCtorEq, ↓reduceIte]
+  rstep (peek_cons _ _)
+  simp only [tTime, hf.2.1, hf.2.2.1, hf.2.2.2.1, hf.2.2.2.2.1, hf.2.2.2.2.2.1, hf.2.2.2.2.2.2.1, hf.2.2.2.2.2.2.2.1,
+    hf.1, ↓reduceIte, Bool.false_eq_true]
+  rstep (consume_spec _ _)
+  rstep (peek_cons _ _)
+  simp only [tLp, ↓reduceIte]
+  rstep (consume_spec _ _)
+  rstep (peek_cons _ _)
+  simp only [tRp, reduceCtorEq, ↓reduceIte]
+  rstep (expect_spec _ _ _).ofE
+  exact RunsV.pure _
+
+/-- `.time(p)` and friends -/
+theorem accOp_time1 (f : Nat) (op : UnOp) (hop : isTimeOp op = true) (p : Int) (hp : intOK p = true)
+    (rest : List TT) :
+    RunsV (StP o (tDot :: tTime op :: tLp :: tInt p.toNat :: tRp :: rest)) (accessorOp o (f + 1) .dot)
+      (.unary op (some (.integer p none)) none) (StE o rest) := by
+  have hf := time_facts hop
+  obtain ⟨h1, h2⟩ := intOK_toNat hp
+  rw [accessorOp]
+  rstep (consume_spec _ _)
+  simp only [reduceCtorEq, ↓reduceIte]
+  rstep (peek_cons _ _)
+  simp only [tTime, hf.2.1, hf.2.2.1, hf.2.2.2.1, hf.2.2.2.2.1, hf.2.2.2.2.2.1, hf.2.2.2.2.2.2.1, hf.2.2.2.2.2.2.2.1,
+    hf.1, ↓reduceIte, Bool.false_eq_true]
+  rstep (consume_spec _ _)
+  rstep (peek_cons _ _)
+  simp only [tLp, ↓reduceIte]
+  rstep (consume_spec _ _)
+  rstep (peek_cons _ _)
+  simp only [tInt, ↓reduceIte]
+  rstep (consume_spec _ _)
+  rw [newInteger_toDigits _ h2]
+  rstep (RunsV.pure _)
+  rstep (expect_spec _ _ _)
+  exact RunsV.pure' (by simp [h1]) (fun _ h => h)
+
+/-! ### `.decimal(…)` -/
+
+def tDecimal : TT := (.decimal, ['d', 'e', 'c', 'i', 'm', 'a', 'l'])
+
+/-- the tokens of one signed integer argument -/
+def csvToks (i : Int) : List TT := if i < 0 then [tMinus, tInt i.natAbs] else [tInt i.natAbs]
+
+theorem csvToks_head (i : Int) : ∃ tk ts, csvToks i = tk :: ts ∧ (tk.1 = .int ∨ tk.1 = .minus) ∧ tk.1 ≠ .rparen := by
+  unfold csvToks
+  split
+  · exact ⟨tMinus, _, rfl, Or.inr rfl, by decide⟩
+  · exact ⟨tInt _, _, rfl, Or.inl rfl, by simp [tInt]⟩
+
+/-- one argument of `.decimal(…)` -/
+theorem csvElem_spec (i : Int) (hi : litOK i = true) (rest : List TT) :
+    RunsV (StP o (csvToks i ++ rest)) (csvElem o (hd (csvToks i))) (.integer i none) (StE o rest) := by
+  simp only [litOK, Bool.and_eq_true, decide_eq_true_eq] at hi
+  unfold csvToks
+  split
+  · rename_i hneg
+    simp only [hd, List.cons_append, List.nil_append, tMinus]
+    rw [csvElem]
+    simp only [reduceCtorEq, ↓reduceIte]
+    rstep (consume_spec _ _)
+    rstep (peek_cons _ _)
+    simp only [tInt, ne_eq, not_true_eq_false, ↓reduceIte]
+    rstep (consume_spec _ _)
+    rw [newInteger_toDigits _ (by omega)]
+    rstep (RunsV.pure _)
+    try simp only [reduceCtorEq, ↓reduceIte]
+    unfold newUnaryOrNumber
+    simp only [Node.next, Option.isNone_none, ↓reduceIte, reduceCtorEq]
+    unfold astNewInteger
+    rw [negLit_toDigits, parseInt0_neg_toDigits _ (by omega)]
+    have e3 : -(i.natAbs : Int) = i := by omega
+    rstep (RunsV.pure _)
+    exact RunsV.pure' (by simp [e3]) (fun _ h => h)
+  · rename_i hneg
+    simp only [hd, List.cons_append, List.nil_append, tInt]
+    rw [csvElem]
+    simp only [↓reduceIte]
+    rstep (consume_spec _ _)
+    rw [newInteger_toDigits _ (by omega)]
+    rstep (RunsV.pure _)
+    have e3 : (i.natAbs : Int) = i := by omega
+    exact RunsV.pure' (by simp [e3]) (fun _ h => h)
+
+theorem csvMore_nil (f : Nat) (acc : List Node) (rest : List TT) (h : (hd rest).1 ≠ .comma) :
+    RunsV (StE o rest) (csvMore o (f + 1) acc) acc (StA o rest) := by
+  rw [csvMore]
+  rstep (peek_any rest)
+  simp only [h, ↓reduceIte]
+  exact RunsV.pure _
+
+/-- the argument lists the printer writes: none, one, or two signed integers -/
+def decArgsToks : Option Node → Option Node → List TT
+  | some (.integer a _), some (.integer b _) => csvToks a ++ tComma :: csvToks b
+  | some (.integer a _), none => csvToks a
+  | _, _ => []
+
+def okDecArgs : Option Node → Option Node → Bool
+  | none, none => true
+  | some (.integer a none), none => litOK a
+  | some (.integer a none), some (.integer b none) => litOK a && litOK b
+  | _, _ => false
+
+theorem accOp_decimal (f : Nat) (l r : Option Node) (h : okDecArgs l r = true) (rest : List TT) :
+    RunsV (StP o (tDot :: tDecimal :: tLp :: (decArgsToks l r ++ tRp :: rest))) (accessorOp o (f + 5) .dot)
+      (.binary .decimal l r none) (StE o rest) := by
+  have pre : ∀ (w : Node) (post : PS → Prop) (ts : List TT),
+      RunsV (StE o ts) (do
+        let args ← csvList o (f + 4)
+        expect o .rparen
+        match args with
+        | [] => pure (Node.binary .decimal none none none)
+        | [a] => pure (.binary .decimal (some a) none none)
+        | [a, b] => pure (.binary .decimal (some a) (some b) none)
+        | _ => do
+          recordError
+          pure (.binary .decimal none none none)) w post →
+      RunsV (StP o (tDot :: tDecimal :: tLp :: ts)) (accessorOp o (f + 5) .dot) w post := by
+    intro w post ts hk
+    rw [accessorOp]
+    rstep (consume_spec _ _)
+    simp only [reduceCtorEq, ↓reduceIte]
+    rstep (peek_cons _ _)
+    simp only [tDecimal, reduceCtorEq, ↓reduceIte, isPlainKeyName, methodOf, decide_false, Bool.or_self,
+      Bool.false_eq_true]
+    rstep (consume_spec _ _)
+    rstep (peek_cons _ _)
+    simp only [tLp, ↓reduceIte]
+    rstep (consume_spec _ _)
+    exact hk
+  apply pre
+  unfold okDecArgs at h
+  split at h
+  · -- no argument
+    simp only [decArgsToks, List.nil_append]
+    have hc : RunsV (StE o (tRp :: rest)) (csvList o (f + 4)) [] (StA o (tRp :: rest)) := by
+      rw [csvList]
+      rstep (peek_cons _ _)
+      simp only [tRp, reduceCtorEq, decide_false, Bool.or_self, Bool.false_eq_true, ↓reduceIte]
+      exact RunsV.pure _
+    rstep hc
+    rstep (expect_spec _ _ _).ofE
+    exact RunsV.pure _
+  · -- one argument
+    rename_i a
+    obtain ⟨tk, ts, htk, hk1, _⟩ := csvToks_head a
+    have he := csvElem_spec (o := o) a h (tRp :: rest)
+    simp only [decArgsToks]
+    rw [htk] at he ⊢
+    have hc : RunsV (StE o (tk :: ts ++ tRp :: rest)) (csvList o (f + 4)) [.integer a none] (StA o (tRp :: rest)) := by
+      rw [csvList]
+      rstep (peek_cons _ _)
+      obtain ⟨t, x⟩ := tk
+      simp only at hk1
+      have : (decide (t = Tok.int) || decide (t = Tok.plus) || decide (t = Tok.minus)) = true := by
+        rcases hk1 with h | h <;> subst h <;> rfl
+      simp only [this, ↓reduceIte]
+      simp only [hd] at he
+      rstep he
+      exact (csvMore_nil (f + 2) _ _ (by simp [hd, tRp]))
+    rstep hc
+    rstep (expect_spec _ _ _).ofE
+    exact RunsV.pure _
+  · -- two arguments
+    rename_i a b
+    simp only [Bool.and_eq_true] at h
+    obtain ⟨tk, ts, htk, hk1, _⟩ := csvToks_head a
+    obtain ⟨tk2, ts2, htk2, hk2, _⟩ := csvToks_head b
+    have he := csvElem_spec (o := o) a h.1 (tComma :: csvToks b ++ tRp :: rest)
+    have he2 := csvElem_spec (o := o) b h.2 (tRp :: rest)
+    simp only [decArgsToks]
+    rw [htk] at he ⊢
+    rw [htk2] at he he2 ⊢
+    have hc : RunsV (StE o (tk :: ts ++ tComma :: tk2 :: ts2 ++ tRp :: rest)) (csvList o (f + 4))
+        [.integer a none, .integer b none] (StA o (tRp :: rest)) := by
+      rw [csvList]
+      simp only [List.cons_append, List.append_assoc]
+      rstep (peek_cons _ _)
+      obtain ⟨t, x⟩ := tk
+      simp only at hk1
+      have : (decide (t = Tok.int) || decide (t = Tok.plus) || decide (t = Tok.minus)) = true := by
+        rcases hk1 with h | h <;> subst h <;> rfl
+      simp only [this, ↓reduceIte]
+      simp only [hd, List.cons_append, List.append_assoc] at he
+      rstep he
+      rw [csvMore]
+      rstep (peek_cons _ _)
+      simp only [tComma, ↓reduceIte]
+      rstep (consume_spec _ _)
+      rstep (peek_cons _ _)
+      obtain ⟨t2, x2⟩ := tk2
+      simp only at hk2
+      have : (decide (t2 = Tok.int) || decide (t2 = Tok.plus) || decide (t2 = Tok.minus)) = true := by
+        rcases hk2 with h | h <;> subst h <;> rfl
+      simp only [this, ↓reduceIte]
+      simp only [hd, List.cons_append] at he2
+      rstep he2
+      exact (csvMore_nil (f + 1) _ _ (by simp [hd, tRp]))
+    simp only [List.cons_append, List.append_assoc] at hc ⊢
+    rstep hc
+    rstep (expect_spec _ _ _).ofE
+    exact RunsV.pure _
+  · simp at h
+
+end
+
+/-! ## Stage 5: the new accessors as `StepOK` -/
+
+theorem formatInt_nonneg {i : Int} (h : intOK i = true) : Decimal.formatInt i = Nat.toDigits 10 i.toNat := by
+  simp only [intOK, Bool.and_eq_true, decide_eq_true_eq] at h
+  have hneg : ¬ i < 0 := by omega
+  have : i.natAbs = i.toNat := by omega
+  simp [Decimal.formatInt, Decimal.formatNat, hneg, this]
+
+/-- the text of one signed integer argument -/
+def csvTxt (i : Int) : List Char := if i < 0 then '-' :: Nat.toDigits 10 i.natAbs else Nat.toDigits 10 i.natAbs
+
+theorem formatInt_csv (i : Int) : Decimal.formatInt i = csvTxt i := by
+  unfold Decimal.formatInt Decimal.formatNat csvTxt
+  rfl
+
+section
+variable {o : Oracles} (ok : OrOK o)
+include ok
+
+theorem seg_csv (i : Int) : Seg o brk (csvTxt i) (csvToks i) := by
+  unfold csvTxt csvToks
+  split
+  · have := Seg.app o (seg2_minus o ok).1 (seg_nat o ok i.natAbs) (fun _ _ => trivial)
+    simpa using this
+  · exact seg_nat o ok i.natAbs
+
+theorem stepOK_time0 (op : UnOp) (hop : isTimeOp op = true) (nx : Option Node) :
+    StepOK o (.unary op none nx) := by
+  have hf := time_facts hop
+  obtain ⟨c, w, hcw, hkw⟩ := hf.2.2.2.2.2.2.2.2.2.2
+  have hseg := seg_dot_kw_call o ok c w (timeKind op) hkw hf.2.2.2.2.2.2.2.2.1
+  refine ⟨'.' :: ((c :: w) ++ ['(', ')']), .dot, ['.'], [(timeKind op, c :: w), tLp, tRp], '.', _, ?_, ?_, rfl,
+    Or.inr (Or.inl rfl), rfl, ?_⟩
+  · intro wp
+    have hu := hf.2.2.2.2.2.2.2.2.2.1
+    rw [hcw] at hu
+    cases op <;> simp [isTimeOp] at hop <;>
+      (rw [Print.writeTo]; simp only [Node.next, Print.stringOpt, hu]
+       generalize Print.writeNext o.isPrint nx = wn
+       cases wn <;> simp)
+  · exact (Seg.weak o ok hseg)
+  · intro rest f _ hf'
+    obtain ⟨f', rfl⟩ : ∃ f', f = f' + 1 := ⟨f - 1, by omega⟩
+    have := accOp_time0 (o := o) f' op hop rest
+    simp only [tTime, hcw] at this
+    exact this
+
+theorem stepOK_time1 (op : UnOp) (hop : isTimeOp op = true) (p : Int) (hp : intOK p = true) (nx : Option Node) :
+    StepOK o (.unary op (some (.integer p none)) nx) := by
+  have hf := time_facts hop
+  obtain ⟨c, w, hcw, hkw⟩ := hf.2.2.2.2.2.2.2.2.2.2
+  obtain ⟨c', w', h1, h2⟩ := kw_shape (c :: w, timeKind op) hkw
+  injection h1 with h1a h1b
+  subst h1a
+  have hd' : isDecimalR (some c) = false := (isLow_facts c h2).2.2.2.2
+  have hseg : Seg o CT ('.' :: ((c :: w) ++ '(' :: (Nat.toDigits 10 p.toNat ++ [')'])))
+      [tDot, (timeKind op, c :: w), tLp, tInt p.toNat, tRp] := by
+    have h3 := Seg.app_cons o (seg_nat o ok p.toNat) (seg_rp o ok) brk_rp
+    have h4 := Seg.app o (seg_lp o ok) h3 (fun _ _ => trivial)
+    have h5 := Seg.app_cons o (seg_kw o ok c w (timeKind op) hkw hf.2.2.2.2.2.2.2.2.1) h4
+      (identCont_punct o ok '(' (by decide))
+    have h6 := Seg.app_cons o (seg_dot o ok) h5 hd'
+    simpa using h6
+  refine ⟨'.' :: ((c :: w) ++ '(' :: (Nat.toDigits 10 p.toNat ++ [')'])), .dot, ['.'],
+    [(timeKind op, c :: w), tLp, tInt p.toNat, tRp], '.', _, ?_, ?_, rfl, Or.inr (Or.inl rfl), rfl, ?_⟩
+  · intro wp
+    have hu := hf.2.2.2.2.2.2.2.2.2.1
+    rw [hcw] at hu
+    have hfi := formatInt_nonneg hp
+    cases op <;> simp [isTimeOp] at hop <;>
+      (rw [Print.writeTo]; simp only [Node.next, Print.stringOpt, Print.simpleString?, hu, hfi]
+       generalize Print.writeNext o.isPrint nx = wn
+       cases wn <;> simp)
+  · exact (Seg.weak o ok hseg)
+  · intro rest f _ hf'
+    obtain ⟨f', rfl⟩ : ∃ f', f = f' + 1 := ⟨f - 1, by omega⟩
+    have := accOp_time1 (o := o) f' op hop p hp rest
+    simp only [tTime, hcw] at this
+    exact this
+
+/-- the text of the arguments of `.decimal(…)` -/
+def decArgsTxt : Option Node → Option Node → List Char
+  | some (.integer a _), some (.integer b _) => csvTxt a ++ ',' :: csvTxt b
+  | some (.integer a _), none => csvTxt a
+  | _, _ => []
+
+theorem seg_decArgs (l r : Option Node) (h : okDecArgs l r = true) :
+    Seg o brk (decArgsTxt l r) (decArgsToks l r) := by
+  unfold okDecArgs at h
+  split at h
+  · exact Seg.nil o _
+  · exact seg_csv ok _
+  · rename_i a b
+    have h1 := Seg.app o (seg_comma o ok) (seg_csv ok b) (fun _ _ => trivial)
+    have h2 := Seg.app_cons o (seg_csv ok a) h1 (Or.inr (Or.inr (Or.inr (Or.inr (Or.inl rfl)))))
+    simpa [decArgsTxt, decArgsToks] using h2
+  · simp at h
+
+theorem decArgsToks_length (l r : Option Node) : (decArgsToks l r).length ≤ 5 := by
+  unfold decArgsToks
+  split <;> simp [csvToks] <;> (repeat' split) <;> simp
+
+theorem stepOK_decimal (l r nx : Option Node) (h : okDecArgs l r = true) :
+    StepOK o (.binary .decimal l r nx) := by
+  have hs := seg_decArgs ok l r h
+  have hseg : Seg o CT ('.' :: 'd' :: 'e' :: 'c' :: 'i' :: 'm' :: 'a' :: 'l' :: '(' :: (decArgsTxt l r ++ [')']))
+      (tDot :: tDecimal :: tLp :: (decArgsToks l r ++ [tRp])) := by
+    have h3 := Seg.app_cons o hs (seg_rp o ok) brk_rp
+    have h4 := Seg.app o (seg_lp o ok) h3 (fun _ _ => trivial)
+    have h5 := Seg.app_cons o (seg_kw o ok 'd' ['e', 'c', 'i', 'm', 'a', 'l'] .decimal (by decide) (by decide)) h4
+      (identCont_punct o ok '(' (by decide))
+    have h6 := Seg.app_cons o (seg_dot o ok) h5 (by decide)
+    simpa [tDecimal] using h6
+  refine ⟨_, .dot, ['.'], tDecimal :: tLp :: (decArgsToks l r ++ [tRp]), '.', _, ?_, Seg.weak o ok hseg, rfl,
+    Or.inr (Or.inl rfl), rfl, ?_⟩
+  · intro wp
+    have e : ".decimal(".toList = ['.', 'd', 'e', 'c', 'i', 'm', 'a', 'l', '('] := by decide
+    unfold okDecArgs at h
+    split at h
+    · rw [Print.writeTo]; simp only [Node.next, Print.stringOpt, e, decArgsTxt]
+      generalize Print.writeNext o.isPrint nx = wn
+      cases wn <;> simp
+    · rw [Print.writeTo]; simp only [Node.next, Print.stringOpt, Print.simpleString?, e, decArgsTxt, formatInt_csv]
+      generalize Print.writeNext o.isPrint nx = wn
+      cases wn <;> simp
+    · rw [Print.writeTo]; simp only [Node.next, Print.stringOpt, Print.simpleString?, e, decArgsTxt, formatInt_csv]
+      generalize Print.writeNext o.isPrint nx = wn
+      cases wn <;> simp
+    · simp at h
+  · intro rest f _ hf'
+    simp only [List.length_cons, List.length_append, List.length_nil] at hf'
+    obtain ⟨f', rfl⟩ : ∃ f', f = f' + 5 := ⟨f - 5, by omega⟩
+    have := accOp_decimal (o := o) f' l r h rest
+    simpa [Node.setNext, tDot] using this
+
+end
+
+/-! ## Stage 5: subscripts with arbitrary expressions -/
+
+/-- the part of `indexList` after one element has been built -/
+def indexK (o : Oracles) (f : Nat) (acc : List Node) (elem : Node) : P (List Node) := do
+  let (t3, _) ← peek o
+  if t3 = .comma then do
+    consume
+    let t4 ← peek o
+    if t4.1 = .stop then syn
+    else indexList o f t4 (acc ++ [elem])
+  else if t3 = .rbrack then do
+    consume
+    pure (acc ++ [elem])
+  else syn
+
+/-- the part of `indexList` after the first bound and its arithmetic -/
+def indexElemK (o : Oracles) (f : Nat) (acc : List Node) (e : EV) (t2 : Tok) : P (List Node) :=
+  if t2 = .to then do
+    consume
+    let u2 ← parseUnary o f
+    let (e2, _) ← arithLoop o f u2
+    indexK o f acc (Node.binary .subscript (some e.node) (some e2.node) none)
+  else indexK o f acc (Node.binary .subscript (some e.node) none none)
+
+theorem indexList_eq (o : Oracles) (f : Nat) (t : TT) (acc : List Node) :
+    indexList o (f + 1) t acc
+      = (parseUnaryT o f t >>= fun u => arithLoop o f u >>= fun p => indexElemK o f acc p.1 p.2) := by
+  rw [indexList]
+  rfl
+
+section
+variable {o : Oracles}
+
+theorem indexK_last (f : Nat) (acc : List Node) (elem : Node) (rest : List TT) :
+    RunsV (StA o (tRb :: rest)) (indexK o f acc elem) (acc ++ [elem]) (StE o rest) := by
+  unfold indexK
+  rstep (peek_cons _ _)
+  simp only [tRb, reduceCtorEq, ↓reduceIte]
+  rstep (consume_spec _ _)
+  exact RunsV.pure _
+
+theorem indexK_more (f : Nat) (acc : List Node) (elem : Node) (tk : TT) (more : List TT) (htk : tk.1 ≠ .stop)
+    (w : List Node) (post : PS → Prop)
+    (h : RunsV (StP o (tk :: more)) (indexList o f tk (acc ++ [elem])) w post) :
+    RunsV (StA o (tComma :: tk :: more)) (indexK o f acc elem) w post := by
+  unfold indexK
+  rstep (peek_cons _ _)
+  simp only [tComma, ↓reduceIte]
+  rstep (consume_spec _ _)
+  rstep (peek_cons _ _)
+  simp only [htk, ↓reduceIte]
+  exact h
+
+/-- `indexList` on the tokens of one subscript goes on with `indexK` -/
+def SubRun (o : Oracles) (s : Node) (tk : TT) (ts : List TT) : Prop :=
+  ∀ f acc more (w : List Node) (post : PS → Prop), 16 * (ts.length + 1) + 8 ≤ f →
+    ((hd more).1 = .comma ∨ (hd more).1 = .rbrack) →
+    RunsV (StA o more) (indexK o f acc s) w post →
+    RunsV (StP o (tk :: ts ++ more)) (indexList o (f + 1) tk acc) w post
+
+theorem sepFollow {t : Tok} (h : t = .comma ∨ t = .rbrack) : EFollow t ∧ t ≠ .to := by
+  rcases h with h | h <;> subst h <;> exact ⟨⟨rfl, by decide, rfl, rfl⟩, by decide⟩
+
+/-- the head unit with `parseUnaryT`, then the loop -/
+theorem expr_fullT {e : Node} {tk : TT} {ts : List TT} {p q : Prop} (h : ESpec o e tk ts p q)
+    (g : Nat) (rest : List TT) (hg : 16 * (ts.length + 1) + 8 ≤ g) (hfol : EFollow (hd rest).1) :
+    ∃ (u : EV) (mid : List TT),
+      RunsV (StP o (tk :: ts ++ rest)) (parseUnaryT o g tk) u (StA o mid) ∧
+      RunsV (StA o mid) (arithLoop o g u) (evOf e, (hd rest).1) (StA o rest) := by
+  obtain ⟨⟨x, tsH, M, hts, hmh, hopd, _, hl2, _⟩, _, _⟩ := h
+  subst hts
+  simp only [List.length_append] at hg
+  have hm := hmh rest hfol.1 hfol.2.1
+  have hrun := hopd g (M ++ rest) (by omega) hm.1 hm.2
+  refine ⟨evOf x, M ++ rest, by simpa using hrun, ?_⟩
+  refine hl2 g rest _ _ (by omega) hfol.1 hfol.2.1 hfol.2.2.2 ?_
+  intro g1 h1 h2
+  obtain ⟨g2, rfl⟩ : ∃ g2, g1 = g2 + 1 := ⟨g1 - 1, by omega⟩
+  exact arith_nil g2 _ rest hfol.2.2.1 hfol.2.2.2
+
+/-- a single bound -/
+theorem subRun_one {l : Node} {tk : TT} {ts : List TT} {p q : Prop} (hl : ESpec o l tk ts p q) :
+    SubRun o (.binary .subscript (some l) none none) tk ts := by
+  intro f acc more w post hf hsep hk
+  have hs := sepFollow hsep
+  obtain ⟨u, mid, h1, h2⟩ := expr_fullT hl f more hf hs.1
+  rw [indexList_eq]
+  rstep h1
+  rstep h2
+  simp only [indexElemK, hs.2, ↓reduceIte, evOf_node]
+  exact hk
+
+/-- a range `l to r` -/
+theorem subRun_two {l r : Node} {tkl tkr : TT} {tsl tsr : List TT} {p q p' q' : Prop}
+    (hl : ESpec o l tkl tsl p q) (hr : ESpec o r tkr tsr p' q') :
+    SubRun o (.binary .subscript (some l) (some r) none) tkl (tsl ++ tTo :: tkr :: tsr) := by
+  intro f acc more w post hf hsep hk
+  simp only [List.length_cons, List.length_append] at hf
+  have hs := sepFollow hsep
+  obtain ⟨u, mid, h1, h2⟩ := expr_fullT hl f (tTo :: tkr :: (tsr ++ more)) (by omega) ⟨rfl, by simp [hd, tTo], rfl, rfl⟩
+  obtain ⟨u2, mid2, h3, h4⟩ := expr_full hr f more (by omega) hs.1
+  rw [indexList_eq]
+  simp only [List.cons_append, List.append_assoc] at h1 ⊢
+  rstep h1
+  rstep h2
+  simp only [hd, tTo, indexElemK, ↓reduceIte, evOf_node]
+  rstep (consume_spec _ _)
+  simp only [List.cons_append] at h3
+  rstep h3
+  rstep h4
+  exact hk
+
+end
+
+/-- a subscript: text, tokens, and `indexList` on them -/
+def SubOK (o : Oracles) (s : Node) : Prop :=
+  ∃ (txt : List Char) (tk : TT) (ts : List TT),
+    Print.writeTo o.isPrint s false false = some txt ∧ Seg o brk txt (tk :: ts) ∧ isPredStart tk.1 = true ∧
+    SubRun o s tk ts
+
+theorem predStart_sub {t : Tok} (h : isPredStart t = true) : t ≠ .star ∧ t ≠ .stop := by
+  constructor <;> (intro hh; subst hh; revert h; decide)
+
+section
+variable {o : Oracles} (ok : OrOK o)
+include ok
+
+theorem subOK_one (l : Node) (hl : ExprOK o l) : SubOK o (.binary .subscript (some l) none none) := by
+  obtain ⟨txt, tk, ts, hpr, hseg, hst, hsp⟩ := hl false
+  refine ⟨txt, tk, ts, ?_, hseg.1, hst, subRun_one hsp⟩
+  simp [Print.writeTo, Print.writeOpd, Print.writeNext, hpr]
+
+theorem subOK_two (l r : Node) (hl : ExprOK o l) (hr : ExprOK o r) :
+    SubOK o (.binary .subscript (some l) (some r) none) := by
+  obtain ⟨ltxt, tkl, tsl, hprl, hsegl, hstl, hspl⟩ := hl false
+  obtain ⟨rtxt, tkr, tsr, hprr, hsegr, _, hspr⟩ := hr false
+  refine ⟨ltxt ++ ' ' :: 't' :: 'o' :: ' ' :: rtxt, tkl, tsl ++ tTo :: tkr :: tsr, ?_, ?_, hstl, subRun_two hspl hspr⟩
+  · have e : " to ".toList = [' ', 't', 'o', ' '] := by decide
+    simp [Print.writeTo, Print.writeOpd, Print.writeNext, hprl, hprr, e]
+  · have h2 := Seg.app_cons o (seg_sp_to o ok) hsegr.2 (identCont_punct o ok ' ' (by decide))
+    have h3 := Seg.app_cons o hsegl.1 h2 brk_sp
+    simpa using h3
+
+end
+
+/-! ### the whole index list -/
+
+section
+variable {o : Oracles}
+
+/-- all subscripts of a list: text, tokens, and `indexList` -/
+def SubsOK (o : Oracles) (subs : List Node) : Prop :=
+  ∃ (txt : List Char) (tk : TT) (ts : List TT),
+    Print.writeSubs o.isPrint subs true = some txt ∧
+    Print.writeSubs o.isPrint subs false = some (',' :: txt) ∧
+    Seg o brk txt (tk :: ts) ∧ isPredStart tk.1 = true ∧
+    ∀ f acc rest, 16 * (ts.length + 1) + 8 ≤ f →
+      RunsV (StP o (tk :: ts ++ tRb :: rest)) (indexList o (f + 1) tk acc) (acc ++ subs) (StE o rest)
+
+theorem subsOK_of (ok : OrOK o) : ∀ (subs : List Node), subs ≠ [] → (∀ s ∈ subs, SubOK o s) → SubsOK o subs := by
+  intro subs
+  induction subs with
+  | nil => intro h; exact absurd rfl h
+  | cons s ss ih =>
+    intro _ hs
+    obtain ⟨txt, tk, ts, hpr, hseg, hst, hrun⟩ := hs s (by simp)
+    cases ss with
+    | nil =>
+      refine ⟨txt, tk, ts, by simp [Print.writeSubs, hpr], by simp [Print.writeSubs, hpr], hseg, hst, ?_⟩
+      intro f acc rest hf
+      exact hrun f acc (tRb :: rest) _ _ hf (Or.inr rfl) (indexK_last f acc s rest)
+    | cons s2 ss2 =>
+      obtain ⟨txt2, tk2, ts2, hpr2a, hpr2b, hseg2, hst2, hrun2⟩ :=
+        ih (by simp) (fun x hx => hs x (by simp at hx ⊢; right; exact hx))
+      refine ⟨txt ++ ',' :: txt2, tk, ts ++ tComma :: tk2 :: ts2, ?_, ?_, ?_, hst, ?_⟩
+      · rw [Print.writeSubs]; simp [hpr, hpr2b]
+      · rw [Print.writeSubs]; simp [hpr, hpr2b]
+      · have h2 := Seg.app o (seg_comma o ok) hseg2 (fun _ _ => trivial)
+        have h3 := Seg.app_cons o hseg h2 (Or.inr (Or.inr (Or.inr (Or.inr (Or.inl rfl)))))
+        simpa using h3
+      · intro f acc rest hf
+        simp only [List.length_cons, List.length_append] at hf
+        obtain ⟨f', rfl⟩ : ∃ f', f = f' + 1 := ⟨f - 1, by omega⟩
+        have h2 := hrun2 f' (acc ++ [s]) rest (by omega)
+        have h3 := indexK_more (o := o) (f' + 1) acc s tk2 (ts2 ++ tRb :: rest) (predStart_sub hst2).2 _ _
+          (by simpa using h2)
+        have := hrun (f' + 1) acc (tComma :: tk2 :: (ts2 ++ tRb :: rest)) _ _ (by omega) (Or.inl rfl) h3
+        simpa using this
+
+/-- `[s₁,…,sₙ]` as an accessor -/
+theorem stepOK_index5 (ok : OrOK o) (subs : List Node) (nx : Option Node) (hne : subs ≠ [])
+    (hs : ∀ s ∈ subs, SubOK o s) : StepOK o (.arrayIndex subs nx) := by
+  obtain ⟨txt, tk, ts, hpr, _, hseg, hst, hrun⟩ := subsOK_of ok subs hne hs
+  have hss := predStart_sub hst
+  refine ⟨'[' :: (txt ++ [']']), .lbrack, ['['], tk :: ts ++ [tRb], '[', _, ?_, ?_, rfl,
+    Or.inr (Or.inr (Or.inl rfl)), rfl, ?_⟩
+  · intro wp
+    rw [Print.writeTo]; simp only [Node.next, hpr]
+    generalize Print.writeNext o.isPrint nx = w
+    cases w <;> simp
+  · have h1 := Seg.app_cons o hseg (seg_rb o ok) (Or.inr (Or.inr (Or.inr (Or.inl rfl))))
+    have h2 := Seg.app o (seg_lb o ok) h1 (fun _ _ => trivial)
+    have := h2.mono o (C' := brkS) (fun _ _ => trivial)
+    simpa [tLb] using this
+  · intro rest f _ hf
+    simp only [List.length_cons, List.length_append, List.length_nil] at hf
+    obtain ⟨f', rfl⟩ : ∃ f', f = f' + 2 := ⟨f - 2, by omega⟩
+    have h1 := hrun f' [] rest (by omega)
+    obtain ⟨t, x⟩ := tk
+    simp only at hss
+    rw [accessorOp]
+    simp only [List.cons_append, List.append_assoc, List.nil_append]
+    rstep (consume_spec _ _)
+    simp only [reduceCtorEq, ↓reduceIte]
+    rstep (peek_cons _ _)
+    simp only [hss.1, hss.2, ↓reduceIte]
+    simp only [List.cons_append, List.nil_append] at h1
+    rstep h1
+    exact RunsV.pure _
+
+end
+
+/-! ## Stage 5: the class with general subscripts, `.time()` family, `.decimal()` -/
+
+mutual
+  /-- an expression: an operand of stage 3, a negative integer literal, a sign applied to an
+      expression that is not a number literal, or `+ - * / %` between expressions -/
+  def okExpr5 (o : Oracles) : Node → Bool
+    | .const k nx => (isOpdConst k || k == .last) && okNext5 o nx
+    | .str s nx => noNulB s && okNext5 o nx
+    | .var s nx => noNulB s && okNext5 o nx
+    | .integer i none => litOK i
+    | .unary op (some x) none => isSign op && okExpr5 o x && notNumLit x
+    | .binary op (some l) (some r) none => isArith op && okExpr5 o l && okExpr5 o r
+    | _ => false
+  def okPred5 (o : Oracles) : Node → Bool
+    | .binary op (some l) (some r) none =>
+      if isCmp op then okExpr5 o l && okExpr5 o r
+      else if isLogic op then okPred5 o l && okPred5 o r
+      else if op = .startsWith then
+        okExpr5 o l && (match strOrVar? r with | some (_, s) => noNulB s | none => false)
+      else false
+    | .unary .not (some p) none => okPred5 o p
+    | .unary .exists (some x) none => okExpr5 o x
+    | .unary .isUnknown (some p) none => okPred5 o p
+    | .regex x pat fl none => okExpr5 o x && noNulB pat && okFlags fl && o.regexAccepts pat fl
+    | _ => false
+  /-- one subscript: `e` or `e to e'` with expressions (in which `last` may occur) -/
+  def okSub5 (o : Oracles) : Node → Bool
+    | .binary .subscript (some l) none none => okExpr5 o l
+    | .binary .subscript (some l) (some r) none => okExpr5 o l && okExpr5 o r
+    | _ => false
+  def okSubs5 (o : Oracles) : List Node → Bool
+    | [] => true
+    | s :: ss => okSub5 o s && okSubs5 o ss
+  def okStep5 (o : Oracles) : Node → Bool
+    | .unary .filter (some p) nx => okPred5 o p && okNext5 o nx
+    | .arrayIndex subs nx => !subs.isEmpty && okSubs5 o subs && okNext5 o nx
+    | .key s nx => noNulB s && okNext5 o nx
+    | .const .anyKey nx => okNext5 o nx
+    | .const .anyArray nx => okNext5 o nx
+    | .any a b nx => lvlOK a && lvlOK b && okNext5 o nx
+    | .method _ nx => okNext5 o nx
+    | .unary .datetime (some (.str t none)) nx => noNulB t && okNext5 o nx
+    | .unary op none nx => (op == .date || op == .datetime || isTimeOp op) && okNext5 o nx
+    | .unary op (some (.integer p none)) nx => isTimeOp op && intOK p && okNext5 o nx
+    | .binary .decimal l r nx => okDecArgs l r && okNext5 o nx
+    | _ => false
+  def okNext5 (o : Oracles) : Option Node → Bool
+    | none => true
+    | some n => okStep5 o n
+end
+
+inductive StepShape5 (o : Oracles) : Node → Prop
+  | simple (n : Node) (h : StepShape n) (hnx : okNext5 o n.next = true) : StepShape5 o n
+  | filter (p : Node) (nx : Option Node) (hp : okPred5 o p = true) (hnx : okNext5 o nx = true) :
+      StepShape5 o (.unary .filter (some p) nx)
+  | index (subs : List Node) (nx : Option Node) (hne : subs ≠ []) (hs : okSubs5 o subs = true)
+      (hnx : okNext5 o nx = true) : StepShape5 o (.arrayIndex subs nx)
+  | time0 (op : UnOp) (nx : Option Node) (hop : isTimeOp op = true) (hnx : okNext5 o nx = true) :
+      StepShape5 o (.unary op none nx)
+  | time1 (op : UnOp) (p : Int) (nx : Option Node) (hop : isTimeOp op = true) (hp : intOK p = true)
+      (hnx : okNext5 o nx = true) : StepShape5 o (.unary op (some (.integer p none)) nx)
+  | decimal (l r nx : Option Node) (h : okDecArgs l r = true) (hnx : okNext5 o nx = true) :
+      StepShape5 o (.binary .decimal l r nx)
+
+theorem okStep5_cases {o : Oracles} {n : Node} (h : okStep5 o n = true) : StepShape5 o n := by
+  unfold okStep5 at h
+  split at h
+  · simp only [Bool.and_eq_true] at h; exact .filter _ _ h.1 h.2
+  · simp only [Bool.and_eq_true, Bool.not_eq_true', List.isEmpty_eq_false_iff] at h
+    exact .index _ _ h.1.1 h.1.2 h.2
+  · simp only [Bool.and_eq_true] at h; exact .simple _ (.key _ _ (noNul_of_B h.1)) h.2
+  · exact .simple _ (.anyKey _) h
+  · exact .simple _ (.anyArray _) h
+  · simp only [Bool.and_eq_true] at h; exact .simple _ (.any _ _ _ h.1.1 h.1.2) h.2
+  · exact .simple _ (.method _ _) h
+  · simp only [Bool.and_eq_true] at h; exact .simple _ (.datetime1 _ _ (noNul_of_B h.1)) h.2
+  · rename_i op nx
+    simp only [Bool.and_eq_true, Bool.or_eq_true, beq_iff_eq] at h
+    rcases h.1 with (h1 | h1) | h1
+    · subst h1; exact .simple _ (.date _) h.2
+    · subst h1; exact .simple _ (.datetime0 _) h.2
+    · exact .time0 _ _ h1 h.2
+  · simp only [Bool.and_eq_true] at h; exact .time1 _ _ _ h.1.1 h.1.2 h.2
+  · simp only [Bool.and_eq_true] at h; exact .decimal _ _ _ h.1 h.2
+  · simp at h
+
+inductive ExprShape5 (o : Oracles) : Node → Prop
+  | const (k : Const) (nx : Option Node) (hk : isOpdConst k = true) (h : okNext5 o nx = true) : ExprShape5 o (.const k nx)
+  | last (nx : Option Node) (h : okNext5 o nx = true) : ExprShape5 o (.const .last nx)
+  | str (s : List Char) (nx : Option Node) (hs : NoNul s) (h : okNext5 o nx = true) : ExprShape5 o (.str s nx)
+  | var (s : List Char) (nx : Option Node) (hs : NoNul s) (h : okNext5 o nx = true) : ExprShape5 o (.var s nx)
+  | nat (i : Int) (h : intOK i = true) : ExprShape5 o (.integer i none)
+  | neg (i : Int) (h : negOK i = true) : ExprShape5 o (.integer i none)
+  | sign (op : UnOp) (x : Node) (hop : isSign op = true) (hx : okExpr5 o x = true) (hn : notNumLit x = true) :
+      ExprShape5 o (.unary op (some x) none)
+  | arith (op : BinOp) (l r : Node) (hop : isArith op = true) (hl : okExpr5 o l = true) (hr : okExpr5 o r = true) :
+      ExprShape5 o (.binary op (some l) (some r) none)
+
+theorem okExpr5_cases {o : Oracles} {n : Node} (h : okExpr5 o n = true) : ExprShape5 o n := by
+  unfold okExpr5 at h
+  split at h
+  · rename_i k nx
+    simp only [Bool.and_eq_true, Bool.or_eq_true, beq_iff_eq] at h
+    rcases h.1 with h1 | h1
+    · exact .const _ _ h1 h.2
+    · subst h1; exact .last _ h.2
+  · simp only [Bool.and_eq_true] at h; exact .str _ _ (noNul_of_B h.1) h.2
+  · simp only [Bool.and_eq_true] at h; exact .var _ _ (noNul_of_B h.1) h.2
+  · rename_i i
+    simp only [litOK, Bool.and_eq_true, decide_eq_true_eq] at h
+    by_cases hi : 0 ≤ i
+    · exact .nat i (by simp only [intOK, Bool.and_eq_true, decide_eq_true_eq]; omega)
+    · exact .neg i (by simp only [negOK, Bool.and_eq_true, decide_eq_true_eq]; omega)
+  · simp only [Bool.and_eq_true] at h; exact .sign _ _ h.1.1 h.1.2 h.2
+  · simp only [Bool.and_eq_true] at h; exact .arith _ _ _ h.1.1 h.1.2 h.2
+  · simp at h
+
+theorem exprPrio5 {o : Oracles} {e : Node} (h : ExprShape5 o e) :
+    3 ≤ Print.priority e ∧ Print.priority e ≤ 6 ∧ (isBin e = true → Print.priority e ≤ 4) ∧
+      (isAddLevel e = true → Print.priority e = 3) := by
+  cases h with
+  | const => refine ⟨?_, ?_, ?_, ?_⟩ <;> simp [Print.priority, isBin, isAddLevel]
+  | last => refine ⟨?_, ?_, ?_, ?_⟩ <;> simp [Print.priority, isBin, isAddLevel]
+  | str => refine ⟨?_, ?_, ?_, ?_⟩ <;> simp [Print.priority, isBin, isAddLevel]
+  | var => refine ⟨?_, ?_, ?_, ?_⟩ <;> simp [Print.priority, isBin, isAddLevel]
+  | nat => refine ⟨?_, ?_, ?_, ?_⟩ <;> simp [Print.priority, isBin, isAddLevel]
+  | neg => refine ⟨?_, ?_, ?_, ?_⟩ <;> simp [Print.priority, isBin, isAddLevel]
+  | sign op x hop _ _ =>
+    cases op <;> simp [isSign] at hop <;>
+      (refine ⟨?_, ?_, ?_, ?_⟩ <;> simp [Print.priority, Print.unPriority, isBin, isAddLevel])
+  | arith op l r hop _ _ =>
+    cases op <;> simp [isArith] at hop <;>
+      (refine ⟨?_, ?_, ?_, ?_⟩ <;> simp [Print.priority, Print.binPriority, isBin, isAddLevel])
+
+inductive PredShape5 (o : Oracles) : Node → Prop
+  | cmp (op : BinOp) (l r : Node) (hop : isCmp op = true) (hl : okExpr5 o l = true) (hr : okExpr5 o r = true) :
+      PredShape5 o (.binary op (some l) (some r) none)
+  | logic (op : BinOp) (l r : Node) (hop : isLogic op = true) (hl : okPred5 o l = true) (hr : okPred5 o r = true) :
+      PredShape5 o (.binary op (some l) (some r) none)
+  | starts (l : Node) (s : List Char) (isVar : Bool) (hl : okExpr5 o l = true) (hs : NoNul s) :
+      PredShape5 o (.binary .startsWith (some l) (some (if isVar then .var s none else .str s none)) none)
+  | not (p : Node) (h : okPred5 o p = true) : PredShape5 o (.unary .not (some p) none)
+  | exists_ (x : Node) (h : okExpr5 o x = true) : PredShape5 o (.unary .exists (some x) none)
+  | isUnknown (p : Node) (h : okPred5 o p = true) : PredShape5 o (.unary .isUnknown (some p) none)
+  | regex (x : Node) (pat : List Char) (fl : Nat) (hx : okExpr5 o x = true) (hp : NoNul pat) (hfl : fl < 32)
+      (hok : okFlags fl = true) (hacc : o.regexAccepts pat fl = true) : PredShape5 o (.regex x pat fl none)
+
+theorem okPred5_cases {o : Oracles} {p : Node} (h : okPred5 o p = true) : PredShape5 o p := by
+  unfold okPred5 at h
+  split at h
+  · rename_i op l r
+    split at h
+    · rename_i hc; simp only [Bool.and_eq_true] at h; exact .cmp op l r hc h.1 h.2
+    · split at h
+      · rename_i hc; simp only [Bool.and_eq_true] at h; exact .logic op l r hc h.1 h.2
+      · split at h
+        · rename_i hc
+          subst hc
+          simp only [Bool.and_eq_true] at h
+          obtain ⟨h1, h2⟩ := h
+          split at h2
+          · rename_i b s hs
+            rcases strOrVar?_some hs with ⟨hb, hr⟩ | ⟨hb, hr⟩
+            · rw [hr]; exact .starts l s false h1 (noNul_of_B h2)
+            · rw [hr]; exact .starts l s true h1 (noNul_of_B h2)
+          · simp at h2
+        · simp at h
+  · exact .not _ h
+  · exact .exists_ _ h
+  · exact .isUnknown _ h
+  · rename_i x pat fl
+    simp only [Bool.and_eq_true] at h
+    obtain ⟨⟨⟨h1, h2⟩, h3⟩, h4⟩ := h
+    have hfl : fl < 32 := by
+      simp only [okFlags, Bool.and_eq_true, decide_eq_true_eq] at h3
+      exact h3.1
+    exact .regex x pat fl h1 (noNul_of_B h2) hfl h3 h4
+  · simp at h
+
+theorem prio_facts5 {o : Oracles} {p : Node} (h : PredShape5 o p) :
+    decide (Print.priority p ≤ Print.binPriority .and) = isAndOr p ∧
+      decide (Print.priority p ≤ Print.binPriority .or) = isOr p := by
+  cases h with
+  | cmp op l r hop _ _ => cases op <;> simp [isCmp] at hop <;> exact ⟨rfl, rfl⟩
+  | logic op l r hop _ _ => cases op <;> simp [isLogic] at hop <;> exact ⟨rfl, rfl⟩
+  | starts l s isVar => exact ⟨rfl, rfl⟩
+  | not => exact ⟨rfl, rfl⟩
+  | exists_ => exact ⟨rfl, rfl⟩
+  | isUnknown => exact ⟨rfl, rfl⟩
+  | regex => exact ⟨rfl, rfl⟩
+
+/-! ## Stage 5: the induction -/
+
+structure AllOK5 (o : Oracles) (k : Nat) : Prop where
+  expr : ∀ n : Node, sizeOf n ≤ k → okExpr5 o n = true → ExprOK o n
+  pred : ∀ p : Node, sizeOf p ≤ k → okPred5 o p = true → PredOK o p
+  chain : ∀ nx : Option Node, sizeOf nx ≤ k → okNext5 o nx = true → ChainOK o nx
+
+theorem okSubs5_mem {o : Oracles} : ∀ (subs : List Node), okSubs5 o subs = true → ∀ s ∈ subs, okSub5 o s = true := by
+  intro subs
+  induction subs with
+  | nil => intro _ s hs; simp at hs
+  | cons a ss ih =>
+    intro h s hs
+    simp only [okSubs5, Bool.and_eq_true] at h
+    simp only [List.mem_cons] at hs
+    rcases hs with rfl | hs
+    · exact h.1
+    · exact ih h.2 s hs
+
+theorem okSub5_cases {o : Oracles} {s : Node} (h : okSub5 o s = true) :
+    (∃ l, s = .binary .subscript (some l) none none ∧ okExpr5 o l = true) ∨
+    (∃ l r, s = .binary .subscript (some l) (some r) none ∧ okExpr5 o l = true ∧ okExpr5 o r = true) := by
+  unfold okSub5 at h
+  split at h
+  · exact Or.inl ⟨_, rfl, h⟩
+  · simp only [Bool.and_eq_true] at h; exact Or.inr ⟨_, _, rfl, h.1, h.2⟩
+  · simp at h
+
+section
+variable {o : Oracles} (ok : OrOK o)
+include ok
+
+/-- `last` (valid inside subscripts only) with its accessors -/
+theorem exprOK_last {nx : Option Node} (hc : ChainOK o nx) : ExprOK o (.const .last nx) := by
+  intro wp
+  obtain ⟨ctxt, ctoks, hw, hcseg, hhead, hrun⟩ := unaryT_chain' (o := o) tLast (.const .last none) rfl hc
+  have hopd : OpdSpec o (.const .last nx) tLast ctoks := by
+    intro f rest hf h1 h2
+    exact hrun f rest (by omega) h1 h2
+  refine ⟨lastTxt ++ ctxt, tLast, ctoks, ?_, ?_, rfl,
+    espec_unit hopd (headA_of_opdSpec hopd (by decide) (by decide) (by decide) (by decide)) _ _⟩
+  · rw [Print.writeTo]; simp [hw, Print.constStr, lastTxt]
+  · have h1 := (seg2_kw o ok 'l' ['a', 's', 't'] .last (by decide) (by decide)).mono o
+      (C' := brkS) (fun _ h => brkS_identCont o ok h)
+    have := Seg2.app o h1 hcseg hhead
+    simpa [lastTxt, tLast] using this
+
+theorem allOK5 : ∀ k, AllOK5 o k := by
+  intro k
+  induction k with
+  | zero =>
+    refine ⟨?_, ?_, ?_⟩
+    · intro n hk _; have := sizeOf_node_pos n; omega
+    · intro n hk _; have := sizeOf_node_pos n; omega
+    · intro nx hk _
+      cases nx with
+      | none => exact chain_nil
+      | some n => simp at hk
+  | succ k ih =>
+    refine ⟨?_, ?_, ?_⟩
+    · intro n hk h
+      cases okExpr5_cases h with
+      | const c nx hc hnx =>
+        simp only [Node.const.sizeOf_spec] at hk
+        exact exprOK_opd ok (opdOK_const ok c hc (ih.chain nx (by omega) hnx))
+      | last nx hnx =>
+        simp only [Node.const.sizeOf_spec] at hk
+        exact exprOK_last ok (ih.chain nx (by omega) hnx)
+      | str s nx hs hnx =>
+        simp only [Node.str.sizeOf_spec] at hk
+        exact exprOK_opd ok (opdOK_str ok s hs (ih.chain nx (by omega) hnx))
+      | var s nx hs hnx =>
+        simp only [Node.var.sizeOf_spec] at hk
+        exact exprOK_opd ok (opdOK_var ok s hs (ih.chain nx (by omega) hnx))
+      | nat i hi => exact exprOK_opd ok (opdOK_int ok i hi)
+      | neg i hi => exact exprOK_neg ok i hi
+      | sign op x hop hx hn =>
+        simp only [Node.unary.sizeOf_spec, Option.some.sizeOf_spec] at hk
+        have hp := exprPrio5 (okExpr5_cases hx)
+        refine exprOK_sign ok op x hop (ih.expr x (by omega) hx) hn ?_
+        rw [sign_prio hop]
+        cases hb : isBin x with
+        | false => exact Or.inr rfl
+        | true => left; have := hp.2.2.1 hb; simp only [decide_eq_true_eq]; omega
+      | arith op l r hop hl hr =>
+        simp only [Node.binary.sizeOf_spec, Option.some.sizeOf_spec] at hk
+        have hpl := exprPrio5 (okExpr5_cases hl)
+        have hpr := exprPrio5 (okExpr5_cases hr)
+        rcases arith_split hop with hm | ha
+        · refine exprOK_mul ok op l r hm (ih.expr l (by omega) hl) (ih.expr r (by omega) hr) ?_ ?_
+          · rw [mul_prio hm]
+            cases hb : isBin l with
+            | false => exact Or.inr rfl
+            | true => left; have := hpl.2.2.1 hb; simp only [decide_eq_true_eq]; omega
+          · rw [mul_prio hm]
+            cases hb : isBin r with
+            | false => exact Or.inr rfl
+            | true => left; have := hpr.2.2.1 hb; simp only [decide_eq_true_eq]; omega
+        · refine exprOK_add ok op l r ha (ih.expr l (by omega) hl) (ih.expr r (by omega) hr) ?_ ?_
+          · rw [add_prio ha]
+            cases hb : isAddLevel l with
+            | false => exact Or.inr rfl
+            | true => left; have := hpl.2.2.2 hb; simp only [decide_eq_true_eq]; omega
+          · rw [add_prio ha]
+            cases hb : isAddLevel r with
+            | false => exact Or.inr rfl
+            | true => left; have := hpr.2.2.2 hb; simp only [decide_eq_true_eq]; omega
+    · intro p hk h
+      cases okPred5_cases h with
+      | cmp op l r hop hl hr =>
+        simp only [Node.binary.sizeOf_spec, Option.some.sizeOf_spec] at hk
+        have hpl := exprPrio5 (okExpr5_cases hl)
+        have hpr := exprPrio5 (okExpr5_cases hr)
+        refine predOK_cmpE ok op l r hop (ih.expr l (by omega) hl) (ih.expr r (by omega) hr) ?_ ?_
+        · rw [cmp_prio hop]; simp only [decide_eq_false_iff_not]; omega
+        · rw [cmp_prio hop]; simp only [decide_eq_false_iff_not]; omega
+      | logic op l r hop hl hr =>
+        simp only [Node.binary.sizeOf_spec, Option.some.sizeOf_spec] at hk
+        exact predOK_logic ok op l r hop (prio_facts5 (okPred5_cases hl)) (prio_facts5 (okPred5_cases hr))
+          (ih.pred l (by omega) hl) (ih.pred r (by omega) hr)
+      | starts l s isVar hl hs =>
+        simp only [Node.binary.sizeOf_spec, Option.some.sizeOf_spec] at hk
+        have hpl := exprPrio5 (okExpr5_cases hl)
+        refine predOK_startsE ok l s isVar (ih.expr l (by omega) hl) hs ?_
+        have : Print.binPriority .startsWith = 2 := rfl
+        rw [this]; simp only [decide_eq_false_iff_not]; omega
+      | not q hq =>
+        simp only [Node.unary.sizeOf_spec, Option.some.sizeOf_spec] at hk
+        exact predOK_not ok q (ih.pred q (by omega) hq)
+      | exists_ x hx =>
+        simp only [Node.unary.sizeOf_spec, Option.some.sizeOf_spec] at hk
+        exact predOK_existsE ok x (ih.expr x (by omega) hx)
+      | isUnknown q hq =>
+        simp only [Node.unary.sizeOf_spec, Option.some.sizeOf_spec] at hk
+        exact predOK_isUnknown ok q (ih.pred q (by omega) hq)
+      | regex x pat fl hx hp hfl hok hacc =>
+        simp only [Node.regex.sizeOf_spec] at hk
+        have hpx := exprPrio5 (okExpr5_cases hx)
+        exact predOK_regexE ok x pat fl (ih.expr x (by omega) hx) hp hfl hok hacc
+          (by simp only [decide_eq_true_eq]; omega)
+    · intro nx hk h
+      cases nx with
+      | none => exact chain_nil
+      | some n =>
+        simp only [Option.some.sizeOf_spec] at hk
+        cases okStep5_cases (by simpa [okNext5] using h) with
+        | simple _ hs hnx =>
+          have := sizeOf_next_lt n
+          exact chain_cons (stepOK_simple ok hs) (ih.chain n.next (by omega) hnx)
+        | filter p nx' hp hnx =>
+          simp only [Node.unary.sizeOf_spec, Option.some.sizeOf_spec] at hk
+          exact chain_cons (stepOK_filter ok p nx' (ih.pred p (by omega) hp)) (ih.chain nx' (by omega) hnx)
+        | index subs nx' hne hs hnx =>
+          simp only [Node.arrayIndex.sizeOf_spec] at hk
+          refine chain_cons (stepOK_index5 ok subs nx' hne ?_) (ih.chain nx' (by omega) hnx)
+          intro s hsm
+          have hlt := List.sizeOf_lt_of_mem hsm
+          rcases okSub5_cases (okSubs5_mem subs hs s hsm) with ⟨l, rfl, hl⟩ | ⟨l, r, rfl, hl, hr⟩
+          · simp only [Node.binary.sizeOf_spec, Option.some.sizeOf_spec] at hlt
+            exact subOK_one ok l (ih.expr l (by omega) hl)
+          · simp only [Node.binary.sizeOf_spec, Option.some.sizeOf_spec] at hlt
+            exact subOK_two ok l r (ih.expr l (by omega) hl) (ih.expr r (by omega) hr)
+        | time0 op nx' hop hnx =>
+          simp only [Node.unary.sizeOf_spec] at hk
+          exact chain_cons (stepOK_time0 ok op hop nx') (ih.chain nx' (by omega) hnx)
+        | time1 op p nx' hop hp hnx =>
+          simp only [Node.unary.sizeOf_spec] at hk
+          exact chain_cons (stepOK_time1 ok op hop p hp nx') (ih.chain nx' (by omega) hnx)
+        | decimal l r nx' hd' hnx =>
+          simp only [Node.binary.sizeOf_spec] at hk
+          exact chain_cons (stepOK_decimal ok l r nx' hd') (ih.chain nx' (by omega) hnx)
+
+end
+
+/-- stage 5: a valid tree that is a stage-5 predicate (`pred = true`) or a stage-5 expression
+    (`pred = false`), in either mode -/
+def RT5 (o : Oracles) (a : AST) : Bool :=
+  validate a.root && (if a.pred then okPred5 o a.root else okExpr5 o a.root)
+
+section
+variable {o : Oracles}
+
+/-- **Stage 5.** -/
+theorem roundtrip_stage5' (ok : OrOK o) (a : AST) (h : RT5 o a = true) :
+    ∃ txt, Print.toString o.isPrint a = some txt ∧
+      ∀ bytes, decodeAll bytes = txt.map Src.ch → parse o bytes = .ok a := by
+  obtain ⟨root, lax, pred⟩ := a
+  simp only [RT5, Bool.and_eq_true] at h
+  obtain ⟨hv, hr⟩ := h
+  cases pred with
+  | true =>
+    simp only [if_true] at hr
+    exact roundtrip_pred ok ((allOK5 ok _).pred root (Nat.le_refl _) hr) hv lax
+  | false =>
+    simp only [Bool.false_eq_true, if_false] at hr
+    exact roundtrip_expr ok ((allOK5 ok _).expr root (Nat.le_refl _) hr) hv lax
+
+end
+
+/-! ## Stage 4 ⊆ stage 5 -/
+
+theorem okIdx_okExpr5 (o : Oracles) {l : Node} (h : okIdx l = true) : okExpr5 o l = true := by
+  rcases okIdx_cases h with ⟨i, rfl, hi⟩ | rfl
+  · simp [okExpr5, intOK_litOK hi]
+  · simp [okExpr5, okNext5]
+
+theorem okSub_okSub5 (o : Oracles) {s : Node} (h : okSub s = true) : okSub5 o s = true := by
+  obtain ⟨l, r, rfl, hl, hr⟩ := okSub_cases h
+  cases r with
+  | none => simp [okSub5, okIdx_okExpr5 o hl]
+  | some r => simp [okSub5, okIdx_okExpr5 o hl, okIdx_okExpr5 o (hr r rfl)]
+
+theorem okSubs5_of (o : Oracles) : ∀ (subs : List Node), (∀ s ∈ subs, okSub s = true) → okSubs5 o subs = true := by
+  intro subs
+  induction subs with
+  | nil => intro _; rfl
+  | cons a ss ih =>
+    intro h
+    simp [okSubs5, okSub_okSub5 o (h a (by simp)), ih (fun s hs => h s (by simp [hs]))]
+
+theorem simpleStep_okStep5 {o : Oracles} {n : Node} (h : simpleStep n = true) (hn : okNext5 o n.next = true) :
+    okStep5 o n = true := by
+  cases simpleStep_cases h with
+  | index subs nx hne hs =>
+    simp only [Node.next] at hn
+    simp [okStep5, hne, okSubs5_of o subs hs, hn]
+  | key s nx hs => simp_all [okStep5, simpleStep, Node.next]
+  | anyKey nx => simp_all [okStep5, simpleStep, Node.next]
+  | anyArray nx => simp_all [okStep5, simpleStep, Node.next]
+  | any a b nx ha hb => simp_all [okStep5, simpleStep, Node.next]
+  | method m nx => simp_all [okStep5, simpleStep, Node.next]
+  | date nx => simp_all [okStep5, simpleStep, Node.next]
+  | datetime0 nx => simp_all [okStep5, simpleStep, Node.next]
+  | datetime1 t nx ht => simp_all [okStep5, simpleStep, Node.next]
+
+structure Sub45 (o : Oracles) (k : Nat) : Prop where
+  expr : ∀ n : Node, sizeOf n ≤ k → okExpr4 o n = true → okExpr5 o n = true
+  pred : ∀ p : Node, sizeOf p ≤ k → okPred4 o p = true → okPred5 o p = true
+  next : ∀ nx : Option Node, sizeOf nx ≤ k → okNext4 o nx = true → okNext5 o nx = true
+
+theorem sub45 (o : Oracles) : ∀ k, Sub45 o k := by
+  intro k
+  induction k with
+  | zero =>
+    refine ⟨?_, ?_, ?_⟩
+    · intro n hk _; have := sizeOf_node_pos n; omega
+    · intro n hk _; have := sizeOf_node_pos n; omega
+    · intro nx hk _
+      cases nx with
+      | none => rfl
+      | some n => simp at hk
+  | succ k ih =>
+    refine ⟨?_, ?_, ?_⟩
+    · intro n hk h
+      cases okExpr4_cases h with
+      | const c nx hc hnx =>
+        simp only [Node.const.sizeOf_spec] at hk
+        simp [okExpr5, hc, ih.next nx (by omega) hnx]
+      | str s nx hs hnx =>
+        simp only [Node.str.sizeOf_spec] at hk
+        simp [okExpr5, noNulB_of hs, ih.next nx (by omega) hnx]
+      | var s nx hs hnx =>
+        simp only [Node.var.sizeOf_spec] at hk
+        simp [okExpr5, noNulB_of hs, ih.next nx (by omega) hnx]
+      | nat i hi => simp [okExpr5, intOK_litOK hi]
+      | neg i hi =>
+        have : litOK i = true := by
+          simp only [negOK, litOK, Bool.and_eq_true, decide_eq_true_eq] at hi ⊢; omega
+        simp [okExpr5, this]
+      | sign op x hop hx hn =>
+        simp only [Node.unary.sizeOf_spec, Option.some.sizeOf_spec] at hk
+        simp [okExpr5, hop, hn, ih.expr x (by omega) hx]
+      | arith op l r hop hl hr =>
+        simp only [Node.binary.sizeOf_spec, Option.some.sizeOf_spec] at hk
+        simp [okExpr5, hop, ih.expr l (by omega) hl, ih.expr r (by omega) hr]
+    · intro p hk h
+      cases okPred4_cases h with
+      | cmp op l r hop hl hr =>
+        simp only [Node.binary.sizeOf_spec, Option.some.sizeOf_spec] at hk
+        simp [okPred5, hop, ih.expr l (by omega) hl, ih.expr r (by omega) hr]
+      | logic op l r hop hl hr =>
+        simp only [Node.binary.sizeOf_spec, Option.some.sizeOf_spec] at hk
+        have hnc : isCmp op = false := by cases op <;> simp [isLogic] at hop <;> rfl
+        simp [okPred5, hop, hnc, ih.pred l (by omega) hl, ih.pred r (by omega) hr]
+      | starts l s isVar hl hs =>
+        simp only [Node.binary.sizeOf_spec, Option.some.sizeOf_spec] at hk
+        cases isVar <;> simp [okPred5, isCmp, isLogic, strOrVar?, noNulB_of hs, ih.expr l (by omega) hl]
+      | not q hq =>
+        simp only [Node.unary.sizeOf_spec, Option.some.sizeOf_spec] at hk
+        simp [okPred5, ih.pred q (by omega) hq]
+      | exists_ x hx =>
+        simp only [Node.unary.sizeOf_spec, Option.some.sizeOf_spec] at hk
+        simp [okPred5, ih.expr x (by omega) hx]
+      | isUnknown q hq =>
+        simp only [Node.unary.sizeOf_spec, Option.some.sizeOf_spec] at hk
+        simp [okPred5, ih.pred q (by omega) hq]
+      | regex x pat fl hx hp hfl hok hacc =>
+        simp only [Node.regex.sizeOf_spec] at hk
+        simp [okPred5, ih.expr x (by omega) hx, noNulB_of hp, hok, hacc]
+    · intro nx hk h
+      cases nx with
+      | none => rfl
+      | some n =>
+        simp only [Option.some.sizeOf_spec] at hk
+        rcases okStep4_cases (by simpa [okNext4] using h) with ⟨h1, h2⟩ | ⟨p, nx', rfl, hp, hnx⟩
+        · have := sizeOf_next_lt n
+          simp only [okNext5]
+          exact simpleStep_okStep5 h1 (ih.next n.next (by omega) h2)
+        · simp only [Node.unary.sizeOf_spec, Option.some.sizeOf_spec] at hk
+          simp [okNext5, okStep5, ih.pred p (by omega) hp, ih.next nx' (by omega) hnx]
+
+/-- stage 4 is part of stage 5 -/
+theorem RT4_RT5 (o : Oracles) (a : AST) (h : RT4 o a = true) : RT5 o a = true := by
+  obtain ⟨root, lax, pred⟩ := a
+  simp only [RT4, RT5, Bool.and_eq_true] at h ⊢
+  refine ⟨h.1, ?_⟩
+  cases pred with
+  | true => simpa using (sub45 o _).pred root (Nat.le_refl _) (by simpa using h.2)
+  | false => simpa using (sub45 o _).expr root (Nat.le_refl _) (by simpa using h.2)
 
 end RoundTrip
 end Sqljson
